@@ -73,6 +73,20 @@ pub fn templates() -> Vec<Template> {
         tpl("probe(Z)(e3)", eoa(3), &["Z"], move |n| call(eoa(3), n, contract(3), &[word_addr(z)])),
         tpl("Z.set(3,9)(e0)", eoa(0), &["Z"], move |n| call(eoa(0), n, z, &[word(3), word(9)])),
         tpl("probeslot(Z,0)(e2)", eoa(2), &["Z"], move |n| call(eoa(2), n, contract(8), &[word_addr(z), word(0)])),
+        // invalid authorisations (skipped: no nonce bump, no code) and the any-chain form (valid)
+        tpl_auth("badchain(A>T1)+call(A,1)(e2)", eoa(2), &["A"], vec![], move |n, nonce_of| {
+            with_auths(call(eoa(2), n, a, &[word(1)]), vec![authorization_ext(a, nonce_of(a), contract(T1), 5, true)])
+        }),
+        tpl_auth("chain0(A>T2)+call(A,2,56)(e3)", eoa(3), &["A"], vec![a], move |n, nonce_of| {
+            with_auths(call(eoa(3), n, a, &[word(2), word(56)]), vec![authorization_ext(a, nonce_of(a), contract(T2), 0, true)])
+        }),
+        tpl_auth("unrecoverable(A>T1)+call(A,1)(e2)", eoa(2), &["A"], vec![], move |n, nonce_of| {
+            with_auths(call(eoa(2), n, a, &[word(1)]), vec![authorization_ext(a, nonce_of(a), contract(T1), 1, false)])
+        }),
+        tpl_auth("authority-has-code(T1>T2)+call(T1,1)(e3)", eoa(3), &["T1"], vec![], move |n, _| {
+            with_auths(call(eoa(3), n, contract(T1), &[word(1)]), vec![authorization(contract(T1), 1, contract(T2))])
+        }),
+        tpl("call(T1,1)(e0)", eoa(0), &["T1"], move |n| call(eoa(0), n, contract(T1), &[word(1)])),
     ]
 }
 
@@ -178,6 +192,9 @@ pub fn jobs(tier: Tier) -> Vec<Job> {
             }
             if tier == Tier::Quick && (seq[0] * 7 + seq[1] * 3 + seq[2]) % 4 != 0 {
                 continue; // quick visits a quarter of the length-3 blocks (thorough: all)
+            }
+            if tier == Tier::Quick && seq.iter().any(|&t| t >= 16) {
+                continue; // quick: the invalid-authorisation templates in blocks of two
             }
         }
         for &spec in specs {
